@@ -26,6 +26,7 @@ type dbSys struct {
 	timer  interface{ Stop() bool }
 	fires  []int
 	total  int
+	wait   int
 }
 
 func (s *dbSys) fn(id int) func() {
@@ -35,6 +36,10 @@ func (s *dbSys) fn(id int) func() {
 		if id >= 100 && id < 1000 && s.call != nil {
 			// a new call arrives while this one is still running
 			s.call(s.fn(id + 1000))
+			if id >= 200 && id < 300 {
+				// ... and this one goes on running for longer than the wait of the new call
+				vtime.Advance(time.Duration(s.wait+1) * time.Millisecond)
+			}
 		}
 	}
 }
@@ -44,6 +49,7 @@ func (s *dbSys) Do(o tt.Op) tt.Res {
 	switch o.N {
 	case "newd":
 		vtime.Enable(false)
+		s.wait = o.A[0]
 		s.call, s.cancel = gogu.NewDebounce(time.Duration(o.A[0]) * time.Millisecond)
 	case "delay":
 		vtime.Enable(false)
@@ -79,7 +85,7 @@ func dbExplorer(depth int) *tt.Explorer {
 			if path[0].N == "delay" {
 				return append(ticks, op("stop"))
 			}
-			return append(ticks, op("call", len(path)+1), op("call", 100+len(path)), op("cancel"))
+			return append(ticks, op("call", len(path)+1), op("call", 100+len(path)), op("call", 200+len(path)), op("cancel"))
 		},
 		SplitDepth: 2,
 	}
